@@ -46,6 +46,18 @@ class FutureStub(StubObj):
         self.env_done = None  # symbolic "done" flag for futures whose state the environment controls
         self.callbacks = []
 
+    @property
+    def f_state(self):
+        return self.state
+
+    @property
+    def f_value(self):
+        return self.value
+
+    @property
+    def f_state0(self):
+        return getattr(self, "state0", None)
+
     def m_done(self, it):
         if self.env_done is not None and self.state == "pending":
             return self.env_done
